@@ -149,6 +149,52 @@ def _cmp(ctx, rule, key, b, paths, rows, vdom=None):
         _viol(ctx, rule, key + "|" + m.row.name, "%s: %s" % (key.split("|")[-1], m), b)
 
 
+def _base_advance(b, prog, inner_h, base, src):
+    """chunk-copy form: on every way round the enclosing loop that ran the copy loop `inner_h`, the base offset must grow by
+    exactly the length of the piece that was copied (and by nothing else)"""
+    try:
+        paths = sym.through_loops(b, prog, keep_back=True, nested=True)
+    except sym.TooManyPaths:
+        return "too many paths to check how the base offset advances"
+    seen = False
+    want_len = sym.mk_len(sym.mk_ref(src)) if src[0] != "deref" else sym.mk_len(src[1])
+    for p in paths:
+        if p.kind != "back" or p.value == inner_h:
+            continue
+        if not any(e[0] == "loop" and e[1] == inner_h for e in p.events):
+            # a round that skipped the copy (e.g. an empty piece): the base must not move
+            v = p.env.get(base[1], base)
+            if v not in (base, ("L", base[1])):
+                return "the base offset changes on a round that copies nothing: %s" % show(v)
+            continue
+        seen = True
+        v = p.env.get(base[1])
+        ok = v is not None and v[0] == "bin" and v[1] == "Add" and v[2] in (base, ("L", base[1], inner_h)) and v[3][0] == "len"
+        if ok:
+            # the piece the copy loop read from, as the enclosing loop sees it
+            cands = [want_len]
+            if src[0] == "deref" and src[1][0] == "L" and src[1][1] in p.env:
+                pv = p.env[src[1][1]]
+                cands += [sym.mk_len(pv), ("len", pv), ("len", ("deref", pv))]
+                if pv[0] == "ref":
+                    cands += [sym.mk_len(pv[1]), ("len", pv[1])]
+            ok = any(_same_piece(v[3], c) for c in cands)
+        if not ok:
+            return "after the copy the base offset becomes %s, expected base + len(piece)" % (show(v) if v else "?")
+    return None if seen else "cannot find where the base offset advances"
+
+
+def _same_piece(a, b_):
+    """len terms over the same piece, modulo the header tag of inner-loop symbols"""
+    def strip(t):
+        if isinstance(t, tuple):
+            if t and t[0] == "L":
+                return ("L", t[1])
+            return tuple(strip(x) for x in t)
+        return t
+    return strip(a) == strip(b_)
+
+
 def write_loops(b, prog):
     """for every innermost loop of a fill function: (header, dest term, dest index local, source slice term, ok?)"""
     out = []
@@ -164,7 +210,14 @@ def write_loops(b, prog):
                     continue
                 _, dest, idx, val = stores[0]
                 msg = None
-                if idx[0] != "L" or p.env.get(idx[1]) != ("bin", "Add", idx, Int(1)):
+                based = None
+                if idx[0] == "bin" and idx[1] == "Add" and idx[2][0] == "L" and idx[3][0] == "L" and val[0] == "index" and val[2] == idx[3] \
+                        and p.env.get(idx[2][1], idx[2]) == idx[2]:
+                    # chunk form: out[base + j] = piece[j] with `base` fixed during the copy and advanced by the piece length after it
+                    based = idx[2]
+                    msg = _base_advance(b, prog, h, based, val[1])
+                    idx = based
+                elif idx[0] != "L" or p.env.get(idx[1]) != ("bin", "Add", idx, Int(1)):
                     msg = "destination index is not advanced by exactly one per byte"
                 src = None
                 if val[0] == "index" and val[2][0] == "L" and p.env.get(val[2][1]) == ("bin", "Add", val[2], Int(1)):
